@@ -305,7 +305,8 @@ def neigh_part(ck, tier, exe, B, plan):
 
     # ---- vacuity of the case set
     wanted = ["inactive", "undefined", "checker", "outside", "xvalidExcl", "kfoldExcl", "flagKept", "nminiEmpty",
-              "nsmaxCut", "quotaCut", "unevenQuota", "singleCut", "allKept", "reordered"]
+              "nsmaxCut", "quotaCut", "unevenQuota", "singleCut", "allKept", "reordered",
+              "coincidentSectors", "coincidentSectorsCut"]
     for k in wanted:
         if not cats.get(k):
             raise Broken("vacuous case set: no case of category %s" % k)
@@ -373,7 +374,7 @@ def neigh_part(ck, tier, exe, B, plan):
                             nball_xv_agree[xmode] += 1
                     if r != exp:
                         dis.add({"kind": "neigh", "cfg_metric": metric_names[cfg["metric"] - 1], "search": "ball",
-                                 "cause": bi["cause"], "matches_model": r == [x - 1 for x in bi["model"]]},
+                                 "cause": bi["cause"], "matches_model": any(r == [x - 1 for x in mdl] for mdl in bi["models"])},
                                 c["id"], lambda: replay_of(c, cfg, o, exp, leaf))
                     else:
                         nball_agree += 1
@@ -564,6 +565,9 @@ def run(tier):
         "is inside)",
         "the sector of a sample is the one of (target - sample) in the anisotropy frame, numbered counter-clockwise from the "
         "first axis (read from NeighMoving::_movingSectorDefine; the documentation does not number the sectors)",
+        "a sample coinciding with the target (cross-validation off) has no defined sector: with several sectors such "
+        "cases are compared only when the defined neighbourhood is the same whichever sector the sample is counted in "
+        "(computed by TLC: SectorIndependent)",
         "nmini is tested on the qualifying samples (before the sector quotas), as the property states",
         "ball search is compared only when the nmaxi Euclidean-nearest samples, leaving aside those that the "
         "cross-validation excludes, are all admissible and nmini <= nmaxi (condition computed by TLC "
